@@ -219,6 +219,7 @@ func callApply(o aopts, indent string, doc, patch []byte) string {
 		if err != nil {
 			return "derr"
 		}
+		scribbleFirst(func(d, _ []byte) ([]byte, error) { return applyVia(p, o, indent, d, len(patch)) }, doc, nil)
 		return obsOf(applyVia(p, o, indent, doc, len(patch)))
 	})
 }
@@ -248,13 +249,34 @@ func callApplyDecoded(o aopts, indent string, doc []byte, p jsonpatch.Patch) str
 	})
 }
 
+// The caller owns what a call returns.  With `scribble` on (history stream), every call is preceded by the SAME call on
+// private copies of its arguments whose result is then overwritten with zero bytes, as a caller recycling its buffers
+// would: a library that hands out shared storage (a cached or preallocated result) returns the zeros the next time.
+var scribble = false
+
+func scribbleFirst(f func(a, b []byte) ([]byte, error), a, b []byte) {
+	if !scribble {
+		return
+	}
+	guarded(func() string {
+		out, _ := f(append([]byte(nil), a...), append([]byte(nil), b...))
+		for i := range out {
+			out[i] = 0
+		}
+		return ""
+	})
+}
+
 func callMerge(doc, patch []byte) string {
+	scribbleFirst(jsonpatch.MergePatch, doc, patch)
 	return guarded(func() string { return obsOf(jsonpatch.MergePatch(doc, patch)) })
 }
 func callMergeMerge(a, b []byte) string {
+	scribbleFirst(jsonpatch.MergeMergePatches, a, b)
 	return guarded(func() string { return obsOf(jsonpatch.MergeMergePatches(a, b)) })
 }
 func callCreate(a, b []byte) string {
+	scribbleFirst(jsonpatch.CreateMergePatch, a, b)
 	return guarded(func() string { return obsOf(jsonpatch.CreateMergePatch(a, b)) })
 }
 func callEqual(a, b []byte) string {
@@ -642,6 +664,26 @@ func streamApply(r *rng, n int, pfx string) {
 		if r.chance(1, 10) {
 			c.indent = r.pick([]string{" ", "  ", "\t", "    "})
 		}
+		if r.chance(1, 250) {
+			// a DEEP document (either side of 1000, 1024, 2048 levels), usually indented: depth limits other than the
+			// decoder's own 10000 must not exist anywhere between input and output
+			k := []int{100, 999, 1000, 1001, 1023, 1024, 1025, 1200, 2047, 2048, 2049}[r.n(11)]
+			var ops []opSpec
+			one, _ := parseJV([]byte("1"))
+			if r.chance(1, 2) {
+				c.doc = []byte(strings.Repeat("[", k) + `"<&>"` + strings.Repeat("]", k))
+				if r.chance(1, 2) {
+					ops = append(ops, opSpec{op: "add", path: "/-", value: one})
+				}
+			} else {
+				c.doc = []byte(strings.Repeat(`{"a":`, k) + `[]` + strings.Repeat("}", k))
+				if r.chance(1, 2) {
+					ops = append(ops, opSpec{op: "add", path: "/b", value: one})
+				}
+			}
+			c.ops, c.patch = ops, spell{0, r}.patchText(ops)
+			c.indent = r.pick([]string{" ", "\t", "", " "})
+		}
 		emitApply(fmt.Sprintf("%s%d", pfx, i), c)
 	}
 }
@@ -865,6 +907,30 @@ func lookalike(r *rng, t *jv) {
 	*t = *w
 }
 
+// a number literal denoting a different real number so close that both round to the same float64 (or float32)
+func nearNumber(r *rng, lit string) string {
+	switch {
+	case strings.ContainsAny(lit, "eE"):
+		i := strings.IndexAny(lit, "eE")
+		m := lit[:i]
+		if !strings.Contains(m, ".") {
+			m += "."
+		}
+		return m + "00000000000000000001" + lit[i:]
+	case strings.Contains(lit, "."):
+		return lit + r.pick([]string{"00000000000000001", "000000000000000000000001", "0000000000000000000000000000000000000000001"})
+	case len(strings.TrimLeft(lit, "-")) >= 17:
+		last := lit[len(lit)-1]
+		if last == '9' {
+			return lit[:len(lit)-1] + "8"
+		}
+		return lit[:len(lit)-1] + string(last+1)
+	case r.chance(1, 3):
+		return lit + "0000000000000000" + r.pick([]string{"1", "7"}) // an integer beyond 2^53 next to another one
+	}
+	return lit + ".00000000000000000001"
+}
+
 // a value derived from v by a few random edits
 func mutateValue(r *rng, v *jv, c genCfg) *jv {
 	w := v.clone()
@@ -874,7 +940,19 @@ func mutateValue(r *rng, v *jv, c genCfg) *jv {
 		locations(w, "", &locs)
 		l := locs[r.n(len(locs))]
 		t := l.v
-		switch r.n(8) {
+		switch r.n(9) {
+		case 8:
+			// a DIFFERENT number that a binary floating-point reading cannot tell from this one
+			var nums []*jv
+			for _, l := range locs {
+				if l.v.kind == kNum {
+					nums = append(nums, l.v)
+				}
+			}
+			if len(nums) > 0 {
+				x := nums[r.n(len(nums))]
+				x.lit = nearNumber(r, x.lit)
+			}
 		case 7:
 			// same number of members, one of them under another name
 			if t.kind == kObj && len(t.keys) > 0 {
@@ -1004,7 +1082,7 @@ func genMergePatch(r *rng, doc *jv, c genCfg, depth int) *jv {
 		p.vals = append(p.vals, v)
 	}
 	for i, k := range doc.keys {
-		switch r.n(6) {
+		switch r.n(7) {
 		case 0:
 			add(k, jnull())
 		case 1:
@@ -1013,6 +1091,10 @@ func genMergePatch(r *rng, doc *jv, c genCfg, depth int) *jv {
 			if depth < 3 {
 				add(k, genMergePatch(r, doc.vals[i], c, depth+1))
 			}
+		case 3:
+			// the member sent back exactly as the document has it (clients do): merging is NOT the identity when the
+			// value holds null members
+			add(k, doc.vals[i].clone())
 		}
 	}
 	for j := r.n(3); j > 0; j-- {
@@ -1248,32 +1330,47 @@ func streamDecode(r *rng, n int, pfx string) {
 			if r.chance(1, 8) {
 				kind = r.pick(kinds)
 			}
+			// member names and string values (op, path, from) are JSON strings: any spelling of the same string
+			// (\uXXXX escapes of ASCII letters, \/ for the solidus) is the same member and the same value
+			enc := func(x string) string {
+				if r.chance(1, 6) {
+					return freeString(r, x)
+				}
+				if r.chance(1, 12) && len(x) > 0 {
+					i := r.n(len(x))
+					if x[i] < 0x80 && x[i] != '"' && x[i] != '\\' {
+						return "\"" + x[:i] + fmt.Sprintf("\\u%04x", x[i]) + x[i+1:] + "\""
+					}
+				}
+				return encString(x, false)
+			}
 			member := func(name, okv string) {
+				qn := enc(name)
 				switch r.n(12) {
 				case 0: // absent
 				case 1:
-					ms = append(ms, fmt.Sprintf(`%s:null`, encString(name, false)))
+					ms = append(ms, fmt.Sprintf(`%s:null`, qn))
 				case 2:
-					ms = append(ms, fmt.Sprintf(`%s:%s`, encString(name, false), r.pick(vals)))
+					ms = append(ms, fmt.Sprintf(`%s:%s`, qn, r.pick(vals)))
 				case 3: // duplicate, last wins
-					ms = append(ms, fmt.Sprintf(`%s:%s`, encString(name, false), r.pick(vals)))
-					ms = append(ms, fmt.Sprintf(`%s:%s`, encString(name, false), okv))
+					ms = append(ms, fmt.Sprintf(`%s:%s`, qn, r.pick(vals)))
+					ms = append(ms, fmt.Sprintf(`%s:%s`, enc(name), okv))
 				case 4: // different case
 					ms = append(ms, fmt.Sprintf(`%s:%s`, encString(strings.ToUpper(name), false), okv))
 				default:
-					ms = append(ms, fmt.Sprintf(`%s:%s`, encString(name, false), okv))
+					ms = append(ms, fmt.Sprintf(`%s:%s`, qn, okv))
 				}
 			}
-			member("op", encString(kind, false))
+			member("op", enc(kind))
 			// path and from drawn from one pool, so that they are often related (equal, a character-wise
 			// prefix, a proper pointer prefix, siblings): decoding must not care
 			ptrs := []string{"/a", "", "/a/b", "/0", "x", "/b", "/bb", "/b/c", "/a_old", "/a/1", "/a/10", "/", "/~0", "/~1x", "/a/-"}
-			member("path", encString(r.pick(ptrs), false))
+			member("path", enc(r.pick(ptrs)))
 			if kind == "add" || kind == "replace" || kind == "test" || r.chance(1, 6) {
 				member("value", r.pick(vals))
 			}
 			if kind == "move" || kind == "copy" || r.chance(1, 6) {
-				member("from", encString(r.pick([]string{"/b", "/b", "/a", "", "/", "/a/1", "/a/b", "x", "/~0"}), false))
+				member("from", enc(r.pick([]string{"/b", "/b", "/a", "", "/", "/a/1", "/a/b", "x", "/~0"})))
 			}
 			if r.chance(1, 5) {
 				ms = append(ms, `"extra":[1,2]`)
